@@ -571,7 +571,7 @@ def check(rep: Report, tier: str, seed: int) -> None:
     pulser_phases(rep, seeded(seed * 49979687 + 29), 4 if quick else 60)
     extra.merge()
     rep.extra["t_total_s"] = round(time.time() - t0, 1)
-    if rep.broken and not rep.failing:
+    if rep.broken and not rep.unknown_failing():
         search(rep, seed, 30 if quick else 300)
 
 
